@@ -26,6 +26,8 @@ import LexVerif.Props.C08Parser
 -- float-writer digit generators and power-of-two writers (dbox)
 import LexVerif.Model.Dragonbox
 import LexVerif.Model.Grisu
+import LexVerif.Proof.DragonboxNormalSpec
+import LexVerif.Proof.GrisuMain
 import LexVerif.Model.WriteBinary
 import LexVerif.Model.Ops.WriteAlgos
 -- string→float algorithm models (fast path, Eisel–Lemire, Bellerophon, power-of-two) and their op handlers
